@@ -119,6 +119,8 @@ def make_app(world, log, hooks=None):
                 # connection has been executed; needs a second worker thread
                 log.add(world, cid, idx, "gate-wait")
                 world.gates["peer-waiters"] = True
+                world.gates[("waiting", cid)] = True
+                world.net.changed()
                 world.wait_until(lambda: any(c != cid and what == "exit" for _, c, _, what in log.events))
             payload = apps.ident_payload(cid, idx, n)
             hdrs = [("Content-Type", "application/octet-stream"), ("X-Req", "%d-%d" % (cid, idx))]
